@@ -769,6 +769,18 @@ def aliased_object(ctx, m, spec, case, tag, lv, root, style):
                 else 'wrong-order'),
             'object uid=%s referenced twice: _yatiml_savorize calls %s, '
             'expected %s for each reference (%s)' % (u, got, exp, t2), case)
+    elif [ev[5] for ev in m.events if ev[2] == 'savorize'
+          and uid_of(ev[5]) == u][:len(exp)] != [
+            ev[5] for ev in m.events if ev[2] == 'savorize'
+            and uid_of(ev[5]) == u][len(exp):]:
+        views = [ev[5] for ev in m.events if ev[2] == 'savorize'
+                 and uid_of(ev[5]) == u]
+        ctx.violation(
+            'C10 savorize second-reference-saw-seasoned-node aliased-object',
+            'object uid=%s referenced twice: the hooks of the second '
+            'reference were handed %s, those of the first %s (%s)' % (
+                u, short(views[len(exp):]), short(views[:len(exp)]), t2),
+            case)
     elif len(inits) != 2 or any(a != wargs for a in inits):
         ctx.violation(
             'C10 load wrong-constructor-arguments aliased-object',
